@@ -1,6 +1,6 @@
 #!/bin/bash
 # tools/runall.sh [quick|thorough] [ids...] : run checks, one line each
-cd /verif
+cd "$(dirname "$0")/.."
 tier=${1:-quick}; shift
 ids=${@:-$(ls mc/props/c*.py | sed 's#.*/c#C#; s#\.py##')}
 for p in $ids; do
